@@ -93,6 +93,11 @@ impl StateMachine<'_> {
 
         if self.source == Source::DiffUnified {
             self.state = State::DiffHeader(DiffType::Unified);
+            // There is no "diff" line that starts a new file section here: a "---" line does.
+            // The next "+++" line must get its header even if it names the same files again.
+            if self.line.starts_with("--- ") {
+                self.handled_diff_header_header_line_file_pair = None;
+            }
             self.painter
                 .set_syntax(get_filename_from_marker_line(&self.line));
         } else {
